@@ -183,7 +183,11 @@ def rule_not_before_answer(ctx, res):
             if e[0] == 'assert' and e[1] == 'overflow:Add':
                 t = e[2][1] if e[2][0] == 'overflow' else None
                 if t and t[2][0] == 'loopvar' and counter is not None and t[2][1] == counter:
-                    hm = [literal(c) for c in p.conds if literal(c)[0] == 'bool' and literal(c)[1][0] == 'call' and literal(c)[1][1] == B + 'handle_message']
+                    # the handle_message result tested last BEFORE this increment on the path
+                    pos = {bb: i for i, bb in enumerate(p.blocks)}
+                    at = pos.get(e[3], len(p.blocks))
+                    hm = [literal(c) for c in p.conds if literal(c)[0] == 'bool' and literal(c)[1][0] == 'call' and literal(c)[1][1] == B + 'handle_message'
+                          and pos.get(c[2], -1) <= at]
                     incs.add(bool(hm) and hm[-1][3] is True)
     res.check(incs == {True}, 'DOM', b.path, 'the response counter is incremented only when handle_message returned true', detail=str(incs))
     hb = ctx.body(B + 'handle_message')
